@@ -1,0 +1,60 @@
+//go:build verif
+
+package autocert
+
+import (
+	mathrand "math/rand"
+	"time"
+)
+
+// Hooks for the /verif check of property C51 (build tag verif only; add-only).
+
+// VerifC51RenewalNext calls the real (*domainRenewal).next for a Manager that has the
+// given RenewBefore and a clock fixed at now.
+func VerifC51RenewalNext(renewBefore time.Duration, now, notBefore, notAfter time.Time) time.Duration {
+	m := &Manager{RenewBefore: renewBefore, nowFunc: func() time.Time { return now }}
+	dr := &domainRenewal{m: m}
+	return dr.next(notBefore, notAfter)
+}
+
+// VerifC51SeedRand replaces the time-seeded source of the package-level jitter
+// generator by a deterministic one.
+func VerifC51SeedRand(seed int64) {
+	pseudoRand.Lock()
+	pseudoRand.rnd = mathrand.New(mathrand.NewSource(seed))
+	pseudoRand.Unlock()
+}
+
+// VerifC51SetNow installs the Manager's test clock.
+func VerifC51SetNow(m *Manager, now func() time.Time) { m.nowFunc = now }
+
+// VerifC51StopRenew stops all renewal timers of m.
+func VerifC51StopRenew(m *Manager) { m.stopRenew() }
+
+// VerifC51RenewalTimers reports how many per-domain renewal loops m has started.
+func VerifC51RenewalTimers(m *Manager) int {
+	m.renewalMu.Lock()
+	defer m.renewalMu.Unlock()
+	return len(m.renewal)
+}
+
+// VerifC51SetRetryAfter sets createCertRetryAfter (the delay of the untracked timer that
+// removes a failed certState) and returns the previous value.
+func VerifC51SetRetryAfter(d time.Duration) time.Duration {
+	old := createCertRetryAfter
+	createCertRetryAfter = d
+	return old
+}
+
+// VerifC51ReleaseRandLock reports whether the mutex of the package-level jitter generator
+// is held although no call is in progress (a panic inside lockedMathRand.int63n leaves it
+// locked) and releases it in that case. It must only be called from a goroutine that is
+// the sole user of the package.
+func VerifC51ReleaseRandLock() bool {
+	if pseudoRand.TryLock() {
+		pseudoRand.Unlock()
+		return false
+	}
+	pseudoRand.Unlock()
+	return true
+}
